@@ -21,7 +21,8 @@ Inductive elem :=
 | Range (lo hi : option aval) (x : bool)
 | Size (inner : eos)
 | Alpha (inner : eos)
-| Contained                              (* ContainedSubtype whose own constraints are not PER-visible *)
+| Contained                              (* ContainedSubtype whose own constraints are not PER-visible, no extension marker after it;
+                                            inclusion of a constrained type is decided end to end (C04/C06/C15 inclusion families) *)
 | NotPV                                  (* PATTERN, WITH COMPONENT(S), CONSTRAINED BY, SETTINGS, ... *)
 with eos :=
 | El (e : elem)
@@ -320,8 +321,8 @@ Definition dispatch (recur : elem -> sop -> eos -> res (option elem))
   | Size inner, Some b => recur b o inner
   | Contained, None => Ok None
   | Contained, Some Contained => Ok None
-  | Contained, Some c => Ok (Some c)
-  | c, Some Contained => Ok (Some c)
+  | Contained, Some c => Ok (match o with Inter => Some c | _ => None end)
+  | c, Some Contained => Ok (match o with Union => None | _ => Some c end)
   | Alpha inner, None => unwrap_none inner
   | Size inner, None => unwrap_none inner
   | _, _ => combine base o fo cs rc
